@@ -21,3 +21,15 @@ Definition mism_msg := Eval vm_compute in
     | _, _ => false
     end) cases_msg.
 Print mism_msg.
+
+(* call sites: every daemon path that builds one of these messages passes the
+   configured MaxOUTGOINGMessageLength to the constructor (whatever the incoming limit is) *)
+Definition mism_site := Eval vm_compute in
+  failing (fun c : Z * list (Z * Z) * Z * Z * res (Z * bool * Z * Z) =>
+    let '(kc, rl, max_out, max_in, obs) := c in
+    match model_msg kc false (expand rl) max_out, obs with
+    | Panic, Panic => true
+    | Val (n, el, v), Val (kept, pre, enclen, verdict) => (n =? kept) && (el =? enclen) && (v =? verdict)
+    | _, _ => false
+    end) cases_site.
+Print mism_site.
